@@ -65,7 +65,7 @@ def programs(tier: str):
                     "cancels": cancels,
                 }
     # states yielded as a non-sequence iterable (generator, dict view)
-    for y in ("gen", "values"):
+    for y in ("gen", "values", "falsy"):
         for other in (None, {"enter": "ok", "exit": "ok", "yields": "one"}):
             disp = [{"enter": "ok", "exit": "ok", "yields": y}] + ([dict(other)] if other else [])
             yield {"block": {"kind": "ascope", "supply": [], "disp": disp, "pause": False, "ending": "return"}, "cancels": 0}
